@@ -86,12 +86,43 @@ Proof.
   apply recover_B; auto. apply fresh_global; auto.
 Qed.
 
+Lemma readers_complete : forall (sps : list spec) evs s k,
+  NoDup (map spec_tid sps) -> InvA s ->
+  let s' := fst (grun evs (s, map (fun sp => Some (sess sp)) sps)) in
+  match fst (exec (ReadAll (POut k)) s') with
+  | RBytes b => exists v, b = pickle v | RErr e => e = ENOENT | _ => False end /\
+  match fst (exec (ReadAll (PMeta k)) s') with
+  | RBytes b => b = meta | RErr e => e = ENOENT | _ => False end.
+Proof.
+  intros sps evs s k Hnd H s'. destruct (atomic_global sps evs s Hnd H) as (_ & HO & HM & _). fold s' in HO, HM.
+  simpl. split.
+  - destruct (lookup (POut k) s') eqn:E; simpl; auto. apply (HO k b E).
+  - destruct (lookup (PMeta k) s') eqn:E; simpl; auto. apply (HM k b E).
+Qed.
+
 Lemma InvB_empty : forall cur, InvB cur [].
 Proof. intros cur. repeat split; intros *; simpl; try discriminate. Qed.
 
 Lemma InvA_empty : InvA [].
 Proof. repeat split; intros *; simpl; try discriminate. Qed.
 End P.
+
+Lemma writer_id_inj : forall pid th pid' th',
+  0 <= th < 18446744073709551616 -> 0 <= th' < 18446744073709551616 ->
+  writer_id pid th = writer_id pid' th' -> pid = pid' /\ th = th'.
+Proof. unfold writer_id. intros. lia. Qed.
+
+Lemma NoDup_writer_ids : forall (l : list (Z * Z)),
+  (forall pt, In pt l -> 0 <= snd pt < 18446744073709551616) -> NoDup l ->
+  NoDup (map (fun pt => writer_id (fst pt) (snd pt)) l).
+Proof.
+  induction l as [|[p t] tl IH]; intros Hb Hnd; simpl; constructor.
+  - inversion Hnd as [|? ? Hnin _]; subst. intros Hin. apply in_map_iff in Hin.
+    destruct Hin as ([p' t'] & E & Hin'). simpl in E.
+    apply writer_id_inj in E; [|apply (Hb (p', t')); right; auto | apply (Hb (p, t)); left; auto].
+    destruct E; subst. contradiction.
+  - inversion Hnd; subst. apply IH; auto. intros pt Hpt; apply Hb; right; auto.
+Qed.
 
 (* ------------------------------------------------------------- witnesses *)
 Definition toy_s1 : fs := snd (run (Toy.session 1 1 None [ACall 1; ACall 2]) []).
